@@ -15,11 +15,17 @@ PID = "C14"
 INVARIANTS = ["SortOracleOK", "ExtremesOK", "PartitionOK", "RetryOK"]
 
 
+ITER = {"list": "list", "tuple": "tuple", "gen": "one-shot:generator", "iter": "one-shot:iter", "map": "one-shot:map",
+        "reversed": "one-shot:reversed", "chain": "one-shot:chain"}
+CALLABLE = {"plain": "asynq-plain", "block": "asynq-generator", "proxy": "async_proxy", "wrap": "make_async_decorator"}
+
+
 def trigger(cell, what):
     """signature of a failing cell: the input class that matters"""
     if cell["h"] == "aretry":
-        return "aretry/%s/k%s%s" % (cell["x"], "<" if cell["k"] < cell["mt"] else ">=", "max_tries")
-    bits = [cell["h"], {"list": "list", "tuple": "tuple", "iter": "one-shot"}[cell["it"]] if cell["form"] == "one" else
+        return "aretry/%s/raises-at-%s/%s/k%s%s" % (CALLABLE[cell["fk"]], "call" if cell["form"] == "call" else "await", cell["x"],
+                                                   "<" if cell["k"] < cell["mt"] else ">=", "max_tries")
+    bits = [cell["h"], ITER[cell["it"]] if cell["form"] == "one" else
             {"var": "varargs", "zero": "no-args", "kw": "bad-keyword"}[cell["form"]],
             {"none": "no-fn", "plain": "async-fn", "block": "blocking-fn"}[cell["fk"]]]
     return "/".join(bits)
@@ -27,7 +33,7 @@ def trigger(cell, what):
 
 def nontrivial(cell):
     xs = cell["xs"]
-    return cell["h"] == "aretry" and cell["k"] > 0 or len(xs) >= 2 and (len(set(xs)) < len(xs) or -1 in xs or cell["it"] == "iter")
+    return cell["h"] == "aretry" and cell["k"] > 0 or len(xs) >= 2 and (len(set(xs)) < len(xs) or -1 in xs or cell["it"] not in ("list", "tuple"))
 
 
 def main():
@@ -98,8 +104,8 @@ def main():
             "model_invariants": INVARIANTS, "model_ok": res.ok, "mismatching_cells": nmis,
             "oracle_cross_checked_against_builtins": sum(n for h, n in per_helper.items() if h != "aretry") * len(builds),
             "evaluations": total, "distinct_nontrivial": sum(1 for c in cases if nontrivial(c["cell"])),
-            "rule": "complete product: helper x every sequence of length <= %d over {None, 3 keys} x element kind x iterable kind x call form x "
-                    "function kind x reverse, aretry: k in 0..4 x max_tries in -1..4 x outcome x listed classes x body kind; "
+            "rule": "complete product: helper x every sequence of length <= %d over {None, 3 keys} x element kind x iterable kind (list, tuple, generator, iter(), map, reversed, chain) x call form x "
+                    "function kind x reverse, aretry: k in 0..4 x max_tries in -1..4 x outcome x listed classes x callable kind (@asynq plain, @asynq generator, @async_proxy, make_async_decorator) x raise at call / at await time; "
                     "non-trivial = duplicates, None elements or a one-shot iterator among >= 2 elements, or a retry that fails at least once" % maxlen,
             "exhaustive": True,
         }
